@@ -202,7 +202,10 @@ class Server:
             os.chdir(cmd["dir"])
             return ["ok", None]
         if k == "mutate":
-            setattr(self.resolve(cmd["module"]), cmd["var"], cmd["value"])
+            if cmd.get("inplace"):
+                assign_inplace(getattr(self.resolve(cmd["module"]), cmd["var"]), cmd["value"])
+            else:
+                setattr(self.resolve(cmd["module"]), cmd["var"], cmd["value"])
             return ["ok", None]
         if k == "memsnap":
             inner = self.cap.inner
@@ -256,6 +259,30 @@ class Server:
                    "same_exc": same_obj, "ctx_clean": api._eval_ctx is None}
             return ["ok", out]
         raise ValueError(cmd)
+
+
+def assign_inplace(obj, new):
+    """Makes the existing container equal to `new` while keeping the identity of the container and, where the
+    shapes allow, of the containers nested in it (what `PARAMS["weights"]["alpha"] = 10` does in user code)."""
+    if isinstance(obj, list) and isinstance(new, list):
+        for i in range(min(len(obj), len(new))):
+            if type(obj[i]) is type(new[i]) and isinstance(obj[i], (list, dict)):
+                assign_inplace(obj[i], new[i])
+            else:
+                obj[i] = new[i]
+        del obj[len(new):]
+        obj.extend(new[len(obj):])
+    elif isinstance(obj, dict) and isinstance(new, dict):
+        for k in list(obj):
+            if k not in new:
+                del obj[k]
+        for k, v in new.items():
+            if k in obj and type(obj[k]) is type(v) and isinstance(v, (list, dict)):
+                assign_inplace(obj[k], v)
+            else:
+                obj[k] = v
+    else:
+        raise TypeError("in-place assignment needs two lists or two dicts")
 
 
 def _stage(s):
